@@ -117,12 +117,16 @@ def gen_comp(rng, kind, n, lo=0, hi=3, center=None, slope=None):
     if kind == "path":
         c0 = center; c1 = slope
         coef = [c0, c1] + ([rng.choice([0, 0.5, -0.25])] if rng.random() < 0.3 else [])
+        if r < 0.07:
+            return dict(kind="poly", coef=[c0], scalar_return=True)      # a callable that answers with one number for the whole time array
         if r < 0.55:
             return dict(kind="poly", coef=coef)
         if r < 0.85:
             return dict(kind=rng.choice(["arr", "list"]), vals=[sum(cf * t ** k for k, cf in enumerate(coef)) for t in n])
         return dict(kind="scal", v=c0)
     coef = [float(rng.randint(1, 3)), float(rng.choice([0, 1, -0.5]))]
+    if r < 0.07:
+        return dict(kind="poly", coef=[coef[0]], scalar_return=True)
     if r < 0.45:
         return dict(kind="poly", coef=coef)
     if r < 0.75:
